@@ -92,6 +92,7 @@ pub fn replay(path: &Path) -> i32 {
                 }
                 "sensitivity" => crate::props_build::check_sensitivity(&spec, &mut st),
                 "iterate" => crate::props_build::check_iteration(&spec, &mut st),
+                w if w.starts_with("iterate_history:") => crate::props_build::replay_iteration_history(&spec, w, &mut st),
                 "graph_info" => crate::props_build::check_graph_info(&spec, true, &mut st),
                 "rank_pops" => crate::props_build::check_pops(&spec, &mut st),
                 w if w.starts_with("call_sequence") => crate::props_build::replay_c16(&spec, w, &mut st),
